@@ -2,6 +2,8 @@ import Proofs.Lemmas.Alias
 /-
 Helper lemmas for C18: the export `to_dataframe(use_aliases=True)` and the `PREFERRED_NAMES` check.
 -/
+set_option linter.unusedSectionVars false
+set_option linter.unusedSimpArgs false
 namespace Fsic.Alias
 variable {α : Type} [DecidableEq α]
 
